@@ -35,12 +35,16 @@ pub struct Program {
     pub needle: Vec<u8>,
     pub hays: Vec<Vec<u8>>,
     pub threads: Vec<Vec<TOp>>,
+    /// every operation is repeated this many times in a row by its thread (all repetitions must
+    /// return the same value); long loops make calls of different threads overlap natively
+    pub reps: u32,
 }
 
 impl Program {
     pub fn encode(&self) -> String {
         let mut s = String::new();
         s.push_str(&format!("needle {}\n", hex(&self.needle)));
+        s.push_str(&format!("reps {}\n", self.reps));
         for h in &self.hays {
             s.push_str(&format!("hay {}\n", hex(h)));
         }
@@ -69,12 +73,13 @@ impl Program {
     }
 
     pub fn decode(text: &str) -> Option<Program> {
-        let mut p = Program { needle: Vec::new(), hays: Vec::new(), threads: Vec::new() };
+        let mut p = Program { needle: Vec::new(), hays: Vec::new(), threads: Vec::new(), reps: 1 };
         for line in text.lines() {
             let mut it = line.split_whitespace();
             match it.next() {
                 Some("needle") => p.needle = unhex(it.next()?),
                 Some("hay") => p.hays.push(unhex(it.next()?)),
+                Some("reps") => p.reps = it.next()?.parse().ok()?,
                 Some("thread") => {
                     let mut ops = Vec::new();
                     for tok in it {
@@ -135,8 +140,21 @@ fn sequential(p: &Program, finder: &Finder<'_>, rfinder: &FinderRev<'_>, op: &TO
         TOp::HandOff(a, i, _) => memchr::memchr_iter(*a, h(*i)).map(|x| x as i64).collect(),
         TOp::OneShot(i, nsel, csel, rev) => {
             let full = h(*i);
-            let hay = if csel % 2 == 1 { full } else { &full[..full.len().min(20 + (*csel as usize) % 44)] };
-            let needle: &[u8] = if p.needle.is_empty() { &p.needle } else { &p.needle[..1 + (*nsel as usize) % p.needle.len()] };
+            let needle: &[u8] = if p.needle.is_empty() { &p.needle } else { &p.needle[..1 + (*nsel as usize) % p.needle.len().min(24)] };
+            // below the one-shot threshold (64 bytes) the haystack is a private copy with the needle
+            // planted at an offset >= 1, so that a hit requires the rolling hash to roll
+            let mut short = [0u8; 63];
+            let hay: &[u8] = if csel % 2 == 1 {
+                full
+            } else {
+                let l = full.len().min(20 + (*csel as usize) % 44);
+                short[..l].copy_from_slice(&full[..l]);
+                if csel % 8 != 0 && needle.len() < l {
+                    let off = 1 + ((*csel as usize) >> 3) % (l - needle.len());
+                    short[off..off + needle.len()].copy_from_slice(needle);
+                }
+                &short[..l]
+            };
             match rev % 3 {
                 0 => vec![enc(memchr::memmem::find(hay, needle))],
                 1 => vec![enc(memchr::memmem::rfind(hay, needle))],
@@ -197,7 +215,18 @@ pub fn run(p: &Program) -> Result<u64, String> {
                             let _ = next_tx.send((it, t, k));
                             got
                         }
-                        other => sequential(prog, finder, rfinder, other),
+                        other => {
+                            let mut got = sequential(prog, finder, rfinder, other);
+                            let reps = if cfg!(miri) { prog.reps.min(2) } else { prog.reps };
+                            for _ in 1..reps {
+                                let again = sequential(prog, finder, rfinder, other);
+                                if again != got {
+                                    got = again;
+                                    break;
+                                }
+                            }
+                            got
+                        }
                     };
                     obs.push((t, k, got));
                 }
